@@ -1,11 +1,15 @@
+(* The model variant the source corresponds to (tie T: gen/PolicyNames.v). *)
 (* Comparator for the monitor correspondence (tie K).  A case carries the state of
    the real PolicyDirectoryMonitor before a scan, the directory as that scan sees
    it, and the state observed afterwards; the checker runs the model on the first
    two and compares.  Dicts are compared as finite maps (order free). *)
 From Coq Require Import ZArith List Bool.
-From PK Require Export Monitor.Monitor Monitor.Spec.
+From PK Require Export Monitor.Monitor Monitor.Spec Monitor.Wf.
+From PKGen Require Import PolicyNames.
 Import ListNotations.
 Open Scope Z_scope.
+
+Definition scan_current := scan_gen monitor_purges_shadowed.
 
 Definition al_sub {V} (veq : V -> V -> bool) (a b : list (Z * V)) : bool :=
   forallb (fun kv => match get (fst kv) b with Some v => veq (snd kv) v | None => false end) a.
@@ -39,14 +43,14 @@ Fixpoint run_check (m : mstate) (h : list (fs_view * list (pname * defid))) : bo
   match h with
   | [] => true
   | (fs, obs) :: r =>
-      let m' := scan fs m in
-      al_eqb Z.eqb (st_store m') obs && negb (st_crash m') && run_check m' r
+      let m' := scan_current fs m in
+      wf_fsb fs && al_eqb Z.eqb (st_store m') obs && negb (st_crash m') && run_check m' r
   end.
 
 Definition check_mcase (c : mcase) : bool :=
   match c with
   | MInit s post => state_eqb (init s) post
-  | MScan pre fs post => state_eqb (scan fs pre) post
+  | MScan pre fs post => wf_fsb fs && state_eqb (scan_current fs pre) post
   | MRun s h => run_check (init s) h
   end.
 
